@@ -22,7 +22,7 @@ def fields(ans, keys):
 
 class VmodCheck(Check):
     EXTRA_FINDINGS = []      # entries in the format of known_findings.json, property = self.pid
-    MODEL_KEYS = ("model", "spec", "kf", "ev", "log", "leak", "live", "inv", "note")
+    MODEL_KEYS = ("model", "spec", "kf", "ev", "log", "leak", "live", "inv", "note", "calls", "mods", "failed", "refused")
 
     def __init__(self, tier, seed):
         super().__init__(tier, seed)
